@@ -17,6 +17,18 @@ theorem sem_simple (op : Op α β) (h1 : op.pre = []) (h2 : op.sub = true) (raw 
 theorem outSeq_cons (y : β) (ys : List β) (e : End) : outSeq (y :: ys) e = .next y :: outSeq ys e := rfl
 @[simp] theorem outSeq_nil (e : End) : outSeq ([] : List β) e = e.toNotifs := rfl
 
+/-! ### the identity stage (`pipe()` of nothing / the observer added by a trailing `.subscribe(obv)`) -/
+theorem emitsSeq_id (xs : List α) (e : End) : cut ((idOp (α := α)).emitsSeq () xs e) = outSeq xs e := by
+  induction xs with
+  | nil => cases e <;> simp [Op.emitsSeq, idOp, End.toNotifs]
+  | cons x xs ih => simp_all [Op.emitsSeq, idOp, outSeq_cons]
+
+theorem sem_idOp (raw : List (Notif α)) : (idOp (α := α)).sem raw = outSeq (elems raw) (fin raw) := by
+  rw [sem_simple _ rfl rfl]; exact emitsSeq_id _ _
+
+theorem sem_idOp_cut (raw : List (Notif α)) : (idOp (α := α)).sem raw = cut raw := by
+  rw [sem_idOp, cut_eq_outSeq]
+
 /-! ### map -/
 theorem emitsSeq_map (f : α → Except Err β) (s : Unit) (xs : List α) (e : End) :
     cut ((mapOp f).emitsSeq s xs e) = refMap f xs e := by
@@ -189,9 +201,17 @@ theorem refMap_zipIdx (f : α → Nat → Except Err β) (i : Nat) (xs : List α
   | nil => rfl
   | cons x xs ih => simp only [List.zipIdx_cons, refMap, refMapIdx]; cases f x i <;> simp [ih]
 
+theorem cut_refMapIdx (f : α → Nat → Except Err β) (i : Nat) (xs : List α) (e : End) :
+    cut (refMapIdx f i xs e) = refMapIdx f i xs e := by
+  induction xs generalizing i with
+  | nil => simp [refMapIdx]
+  | cons x xs ih => simp only [refMapIdx]; cases f x i <;> simp [ih]
+
 theorem sem_mapIndexed (f : α → Nat → Except Err β) (raw : List (Notif α)) :
     (mapIndexedOp f).sem raw = refMapIdx f 0 (elems raw) (fin raw) := by
-  rw [mapIndexedOp, sem_comp, sem_map, sem_zipIdx]; simp [refMap_zipIdx]
+  rw [mapIndexedOp, sem_comp, sem_comp, sem_map, sem_zipIdx, sem_idOp_cut]
+  simp only [elems_outSeq, fin_outSeq, refMap_zipIdx]
+  exact cut_refMapIdx f 0 _ _
 
 theorem refMapIdx_pair (i : Nat) (xs : List α) (e : End) :
     refMapIdx (fun x i => Except.ok (x, i)) i xs e = outSeq (xs.zipIdx i) e := by
@@ -227,7 +247,16 @@ theorem sem_skipWhileIndexed (p : α → Nat → Except Err Bool) (raw : List (N
   simp [refSkipWhile_zipIdx]
 
 /-! ### distinct -/
-theorem emitsSeq_distinct (key : α → Except Err κ) (cmp : κ → κ → Bool) (seen : List κ) (xs : List α) (e : End) :
+theorem findMatch_eq_anyMatch (cmp : κ → κ → Except Err Bool) (k : κ) (seen : List κ) :
+    findMatch cmp k seen = anyMatch cmp k seen := by
+  induction seen with
+  | nil => rfl
+  | cons a rest ih =>
+    cases h : cmp a k with
+    | error er => simp [findMatch, anyMatch, h]
+    | ok b => cases b <;> simp [findMatch, anyMatch, h, ih]
+
+theorem emitsSeq_distinct (key : α → Except Err κ) (cmp : κ → κ → Except Err Bool) (seen : List κ) (xs : List α) (e : End) :
     cut ((distinctOp key cmp).emitsSeq seen xs e) = refDistinct key cmp seen xs e := by
   induction xs generalizing seen with
   | nil => cases e <;> simp [Op.emitsSeq, distinctOp, refDistinct, passErr, passDone, End.toNotifs]
@@ -236,11 +265,14 @@ theorem emitsSeq_distinct (key : α → Except Err κ) (cmp : κ → κ → Bool
     cases h : key x with
     | error er => simp_all [distinctOp, emit]
     | ok k =>
-      cases hany : seen.any (fun a => cmp a k)
-      · have := ih (seen ++ [k]); simp_all [distinctOp, emit, -List.any_eq_true, -List.any_eq_false]
-      · have := ih seen; simp_all [distinctOp, emit, -List.any_eq_true, -List.any_eq_false]
+      cases hm : anyMatch cmp k seen with
+      | error er => simp_all [distinctOp, emit, findMatch_eq_anyMatch]
+      | ok b =>
+        cases b
+        · have := ih (seen ++ [k]); simp_all [distinctOp, emit, findMatch_eq_anyMatch]
+        · have := ih seen; simp_all [distinctOp, emit, findMatch_eq_anyMatch]
 
-theorem sem_distinct (key : α → Except Err κ) (cmp : κ → κ → Bool) (raw : List (Notif α)) :
+theorem sem_distinct (key : α → Except Err κ) (cmp : κ → κ → Except Err Bool) (raw : List (Notif α)) :
     (distinctOp key cmp).sem raw = refDistinct key cmp [] (elems raw) (fin raw) := by
   rw [sem_simple _ rfl rfl]; exact emitsSeq_distinct key cmp _ _ _
 
@@ -591,22 +623,29 @@ theorem refSkipWhileIdx_pure (q : α → Nat → Bool) (i : Nat) (xs : List α) 
       simp [refSkipWhileIdx, h, this]
     · simp [refSkipWhileIdx, ih, h]
 
+theorem anyMatch_pure (c : κ → κ → Bool) (k : κ) (seen : List κ) :
+    anyMatch (fun a b => .ok (c a b)) k seen = .ok (seen.any (fun a => c a k)) := by
+  induction seen with
+  | nil => rfl
+  | cons a rest ih => cases h : c a k <;> simp [anyMatch, h, ih]
+
 theorem refDistinct_loop (g : α → κ) (cmp : κ → κ → Bool) (xs bs : List α) (e : End) :
     outSeq (List.eraseDupsBy.loop (fun new old => cmp (g old) (g new)) xs bs) e
-      = bs.reverse.map Notif.next ++ refDistinct (fun x => .ok (g x)) cmp (bs.reverse.map g) xs e := by
+      = bs.reverse.map Notif.next ++
+          refDistinct (fun x => .ok (g x)) (fun a b => .ok (cmp a b)) (bs.reverse.map g) xs e := by
   induction xs generalizing bs with
   | nil => simp [List.eraseDupsBy.loop, refDistinct, outSeq]
   | cons x xs ih =>
     have hany : ((bs.reverse.map g).any fun a => cmp a (g x)) = bs.any (fun old => cmp (g old) (g x)) := by
       simp [List.any_map, List.any_reverse, Function.comp_def]
-    simp only [List.eraseDupsBy.loop, refDistinct, hany]
+    simp only [List.eraseDupsBy.loop, refDistinct, anyMatch_pure, hany]
     cases h : bs.any (fun old => cmp (g old) (g x))
-    · simp only [Bool.false_eq_true, if_false]
+    · simp only []
       rw [ih (x :: bs)]; simp
-    · simp only [if_true]; rw [ih bs]
+    · simp only []; rw [ih bs]
 
 theorem refDistinct_pure (g : α → κ) (cmp : κ → κ → Bool) (xs : List α) (e : End) :
-    refDistinct (fun x => .ok (g x)) cmp [] xs e
+    refDistinct (fun x => .ok (g x)) (fun a b => .ok (cmp a b)) [] xs e
       = outSeq (xs.eraseDupsBy (fun new old => cmp (g old) (g new))) e := by
   have := refDistinct_loop g cmp xs [] e
   simpa [List.eraseDupsBy] using this.symm
